@@ -552,7 +552,7 @@ def evaluate(run, want=None):
             mus = [a_["stacked_data_mean"] for a_ in lb["inp"]["arrays"]]
             ths = [a_["train_inverse"] for a_ in lb["inp"]["arrays"]]
             usable = all(mu is not None and th is not None and np.all(np.isfinite(th)) for mu, th in zip(mus, ths))
-            if usable and all(linalg.is_pd(np.atleast_2d(th)) for th in ths) and all(np.linalg.cond(np.atleast_2d(th)) < 1e10 for th in ths):
+            if usable and all(linalg.is_pd(np.atleast_2d(th)) for th in ths) and all(np.linalg.cond(np.atleast_2d(th)) < 1e13 for th in ths):
                 ths2 = [np.atleast_2d(th) for th in ths]
                 ref = gauss.gauss_table(X, mus, ths2)
                 bound = gauss.table_bound(X, mus, ths2)
@@ -668,7 +668,7 @@ def evaluate(run, want=None):
             if not np.all(np.isfinite(mm)) or not linalg.is_symmetric_exact(mm) or not linalg.is_pd(mm, I.counts):
                 I.v("C03", "returned MRF %d is not a finite symmetric positive-definite matrix" % k)
         I.c("result_floats_checked", len(vals))
-    if not pd_ok or any(np.linalg.cond(th) > 1e10 for th in ths):
+    if not pd_ok or any(np.linalg.cond(th) > 1e13 for th in ths):
         I.c("runs_final_model_not_pd_or_illconditioned")
         return I
 
